@@ -124,6 +124,24 @@ PrimFailing(r) ==
   IF f # {} /\ r.nearAxis /\ f \subseteq {"On1", "On2", "Consistent", "GlobalMinimum", "ZeroImpliesCommon"}
   THEN f \cup {"ZONE_NearAxis"} ELSE f
 
+(* ---------------- relations between queries (C12): kind = "pair" ----------------
+   two runs of the same query on related scenes: rel = "swap" (arguments exchanged), "rigid" (one rigid motion
+   applied to both arguments), "scale" (uniform scaling).  The harness applies the expected transformation to the
+   first result and measures the differences in ticks of the query's own tolerance:
+   r.dticks (scalars: distance, depth), r.pticks (points, directions, translation vectors; compared only where the
+   optimum is unique: r.unique), r.boolSame (booleans), r.band (the scene lies inside the decision band of the
+   boolean / of the overlap decision, where the property does not fix the answer) *)
+PairClauses == <<"NoException", "ScalarsAgree", "BooleansAgree", "PointsFollow">>
+PairHolds(c, r) ==
+  CASE c = "NoException"   -> r.exc = "none"
+    [] c = "ScalarsAgree"  -> r.exc = "none" => r.dticks <= Slack
+    [] c = "BooleansAgree" -> (r.exc = "none" /\ ~r.band) => r.boolSame
+    [] c = "PointsFollow"  -> (r.exc = "none" /\ r.unique) => r.pticks <= Slack
+PairName(r, c) == IF c = "NoException" THEN c
+                  ELSE IF r.rel = "swap" THEN "SwapSymmetric_" \o c
+                  ELSE IF r.rel = "rigid" THEN "RigidInvariant_" \o c ELSE "ScaleEquivariant_" \o c
+PairFailing(r) == {PairName(r, c) : c \in {x \in Range(PairClauses) : ~PairHolds(x, r)}}
+
 (* Named trace pattern for a known finding (DESIGN section 8): the query ended on a simplex of 2..4
    points whose smallest extent is below 1e-9 of its largest (flatDec = decimal exponent of that ratio,
    observed by the harness at the library's final witness-point computation; -99 = exactly degenerate).
